@@ -3,10 +3,10 @@
 d=$1; id=$2; tier=${3:-quick}
 cd /verif
 [ -z "$(git -C /repo status --porcelain)" ] || { echo "/repo dirty"; exit 2; }
-trap 'git -C /repo checkout -- . 2>/dev/null' EXIT
+trap '(git -C /repo checkout -- . && git -C /repo clean -fdq src tests) 2>/dev/null' EXIT
 git -C /repo apply "$d/patch.diff" || { echo "APPLY FAILED $d"; exit 2; }
 out=$(./check "$id" "$tier" 2>&1); rc=$?
-git -C /repo checkout -- .
+git -C /repo checkout -- . && git -C /repo clean -fdq src tests
 echo "== $(basename $d) vs $id $tier: exit $rc"
 echo "$out" | grep -E "^violation|^VIOLATION|BUILD ERROR|HARNESS" | head -4
 exit 0
